@@ -195,6 +195,18 @@ def _content_only(ctx) -> None:
            message="; ".join(problems))
     g = prog.func("vector.Vector._hash_element")
     p2 = _forbidden(g)
+    x = g.params[0]
+    dg = Defs(g)
+    for r in [s for s in walk_stmts(g.body) if isinstance(s, ast.Return)]:
+        v = r.value
+        ok_form = (isinstance(v, ast.Constant) and isinstance(v.value, int)) \
+            or (isinstance(v, ast.Call) and short(v.func) == "hash" and len(v.args) == 1) \
+            or (isinstance(v, ast.Call) and short(v.func) == "int" and len(v.args) == 1 and short(v.args[0]).endswith(".fingerprint()")) \
+            or (isinstance(v, ast.Call) and short(v.func).endswith("_hash_element")) \
+            or (isinstance(v, ast.Name) and v.id in dg.assigns)
+        if not ok_form:
+            p2.append(f"`{short(r, 60)}` post-processes the element hash: a non-injective wrapper (abs, %, &, //) makes distinct values "
+                      f"that Python's hash() tells apart (5 / -5) indistinguishable")
     # every return is a constant, hash(x-derived), x.fingerprint(), recursion on x-derived, or the local fold
     ctx.ob("c.content-only", g, "element-hash", not p2, "_hash_element reads only the element (and class constants)", g.node,
            message="; ".join(p2))
